@@ -180,6 +180,9 @@ func recoverCheck(w *harness.World, img *vstor.Stor, what string, loose map[stri
 
 func init() {
 	hk := &seqHooks{After: func(w *harness.World, t *seqTask, r *seqResult) {
+		if hasMode(t, "features") {
+			return // layout search only
+		}
 		vsched.Quiesce()
 		w.Close()
 		base := w.Stor
@@ -277,6 +280,20 @@ func init() {
 				specs = append(specs, seqSpec{Cfg: cfg, Alpha: c19Alpha, Depth: d, Checks: "db", Mode: "damage"})
 			}
 			specs = append(specs, seqSpec{Cfg: "flushy/shortlex", Alpha: mustAlpha("shortlex"), Depth: d, Checks: "db", Probes: mustProbes("shortlex")})
+			// continue from deep / rewritten layouts (e.g. older data in a higher-numbered table
+			// than newer data: after Recover everything sits in level 0, where only sequence
+			// numbers may decide)
+			fp := explore.NewPool(0, "worker", "C19")
+			rd, rmax := 6, 10
+			if c.Tier == "thorough" {
+				rd, rmax = 7, 24
+			}
+			for _, cfg := range []string{"deep/bytewise", "mixed/bytewise"} {
+				hs, feats := findRichHistories(c, fp, cfg, richAlpha, rd, rmax)
+				c.Coverage["layout_features_"+cfg] = feats
+				specs = append(specs, seqSpec{Cfg: cfg, Alpha: []string{"put:a", "del:c", "w:-a,-c", "cr", "q"}, Depth: 2, Checks: "db", Mode: "from-rich-states", Prefixes: hs})
+			}
+			fp.Close()
 			runSpecs(c, "C19", specs,
 				"per reached state (BFS over DB operation sequences; state settled with Quiesce and closed): storage cloned and Recover run on each variant {manifest+CURRENT removed, CURRENT removed, manifest cut at every record boundary -1/0/+1 and inside headers, manifest garbage} -> contents must equal the model, LSM invariants hold, DB usable and reopenable with Open; plus, with the manifest removed, one byte altered per 16-byte stretch of each table's data area (one table at a time) and the first blocks of all tables together -> Recover succeeds, keys with no entry in the damaged table read exactly as the model, other keys only values once written (x_recover_runs, x_damaged_tables)",
 				[]string{"settled, cleanly closed states only", "damage oracle is exact for keys outside the damaged table and 'never invented' for keys inside it (the property's per-block clause is checked at table granularity)"})
